@@ -68,8 +68,9 @@ def main():
     logging.disable(logging.CRITICAL)
     import c06_impl
     try:
+        early = c06_impl.build_early(job["case"])          # some events exist before the unrelated activity ...
         keep = prior_activity(job.get("prior") or {})
-        rec = c06_impl.run_case(job["case"], "v7c")
+        rec = c06_impl.run_case(job["case"], "v7c", early=early)   # ... the others are built after it, before initialize
         # the process-independent part of the run
         parts = {
             "trace": rec["trace"],
